@@ -156,3 +156,54 @@ func unsupported(what string) {
 		s.Unsupported("sync." + what)
 	}
 }
+
+// The rest of the package's surface, so that any use of "sync" a maintainer may write compiles.
+
+func (m *RWMutex) TryLock() bool {
+	if s := verifrt.S; s != nil {
+		s.Unsupported("RWMutex.TryLock")
+		s.Lock(unsafe.Pointer(m), 0)
+		return true
+	}
+	return m.real.TryLock()
+}
+func (m *RWMutex) TryRLock() bool {
+	if s := verifrt.S; s != nil {
+		s.Unsupported("RWMutex.TryRLock")
+		s.Lock(unsafe.Pointer(m), 1)
+		return true
+	}
+	return m.real.TryRLock()
+}
+
+type rlocker RWMutex
+
+func (r *rlocker) Lock()   { (*RWMutex)(r).RLock() }
+func (r *rlocker) Unlock() { (*RWMutex)(r).RUnlock() }
+
+// RLocker returns a Locker whose Lock and Unlock call RLock and RUnlock.
+func (m *RWMutex) RLocker() Locker { return (*rlocker)(m) }
+
+// Clear deletes all entries.
+func (m *Map) Clear() { m.pt(true); m.real.Clear() }
+
+// OnceValue returns a function that calls f once and returns its value afterwards.
+func OnceValue[T any](f func() T) func() T {
+	var o Once
+	var r T
+	return func() T {
+		o.Do(func() { r = f() })
+		return r
+	}
+}
+
+// OnceValues is OnceValue for two results.
+func OnceValues[T1, T2 any](f func() (T1, T2)) func() (T1, T2) {
+	var o Once
+	var r1 T1
+	var r2 T2
+	return func() (T1, T2) {
+		o.Do(func() { r1, r2 = f() })
+		return r1, r2
+	}
+}
